@@ -27,6 +27,9 @@ pub struct Knobs {
     pub empty_bias: u8,
     /// zero-sized element vectors may be astronomically long (offsets cross 2^32 at no memory cost)
     pub zst_huge: bool,
+    /// n>0: every top-level collection / string has exactly n elements (batches of equal-length
+    /// values: the fixed-size array implementations become reachable for whole batches)
+    pub fixed_len: usize,
 }
 
 impl Default for Knobs {
@@ -41,6 +44,7 @@ impl Default for Knobs {
             nonfinite: true,
             empty_bias: 2,
             zst_huge: false,
+            fixed_len: 0,
         }
     }
 }
@@ -59,12 +63,13 @@ impl Knobs {
             nonfinite: true,
             empty_bias: *rng.pick(&[0u8, 1, 2, 4, 8]),
             zst_huge: false,
+            fixed_len: 0,
         }
     }
     pub fn to_json(&self) -> J {
         json!({"str_class": self.str_class, "small_domain": self.small_domain, "max_len": self.max_len,
                "int_mode": self.int_mode, "arith_step": self.arith_step, "nonfinite": self.nonfinite,
-               "empty_bias": self.empty_bias, "zst_huge": self.zst_huge})
+               "empty_bias": self.empty_bias, "zst_huge": self.zst_huge, "fixed_len": self.fixed_len})
     }
 }
 
@@ -79,6 +84,9 @@ impl<'r> Gen<'r> {
         Gen { rng, k, depth: 0 }
     }
     pub fn len(&mut self) -> usize {
+        if self.k.fixed_len > 0 && self.depth <= 1 {
+            return self.k.fixed_len;
+        }
         if self.rng.chance(self.k.empty_bias as u32, 16) {
             return 0;
         }
